@@ -227,6 +227,7 @@ def _abstract_solve(relpath, cls, walk):
         me.solve_statistics = TrackedDict()
         me.k = Sym(z3.Int("k"))
         me._is_solved = Sym(z3.Bool("solved_before"))
+        me.is_solved = lambda: me._is_solved
         me.solve_time_start = Sym(z3.Real("t0"))
         me.G = GraphStub()
         me.get_objective_value = lambda: Sym(z3.Real("obj"))
@@ -242,7 +243,7 @@ def _abstract_solve(relpath, cls, walk):
         c.prove("post:is_solved<=>(status=kOptimal or external solution)", st == want, prop=P)
         c.prove("post:return-value=is_solved", (z3.BoolVal(r) if isinstance(r, bool) else lift(r)) == st, prop=P)
         if ext is None:
-            c.prove("post:solver-ran-exactly-once", me.solver.optimized == 1, kind="post")
+            c.prove("post:every-solve()-runs-the-solver-on-the-current-model-(exactly-once),-whatever-was-solved-before", me.solver.optimized == 1, prop=P)
     return Unit(relpath, cls + ".solve", h, globs=dict(utils=UtilsStub, time=TimeStub), props=[P], assumptions=[A_SOLVER],
                 callee_contracts=["SolverWrapper.optimize", "SolverWrapper.get_model_status"])
 
